@@ -16,7 +16,7 @@ over every input text. The supporting invariant (`Ecal.Parse.specs`, one inducti
 
 /-- what the fuel-indexed parser returns for a given fuel -/
 theorem outcome (fuel : Nat) (ts : List Tok) :
-    (∃ t, parseToksWith fuel ts = (some t, none) ∧ noNil t = true) ∨
+    (∃ t, parseToksWith fuel ts = (some t, none) ∧ okTree t = true) ∨
     (∃ e, parseToksWith fuel ts = (none, some e) ∧ e ≠ .panic ∧ (4 * ts.length + 4 ≤ fuel → e ≠ .fuel)) := by
   have h := parseBody_spec fuel ts
   unfold Sat at h
@@ -63,27 +63,64 @@ theorem parse_text_error_xor_tree (input : List Nat) :
     (∃ t, parse input = (some t, none)) ∨ (∃ kind line col, parse input = (none, some (.perr kind line col))) :=
   parse_error_xor_tree _
 
-/-- **parse_wellformed_partial.** Proved part of `parse_wellformed`: a returned tree contains no nil
-    child at any depth (the defect repaired by 486e4c7 was such a child).
-    Full statement, NOT proved here: `parseToks ts = (some t, none) → WellFormed t = true`, with the
-    per-kind child counts/kinds of `Model/ParserWF.lean`. What is missing: carrying the shape clauses
-    (`shapeOk`) through the same induction (`Specs` would need the name and child signatures of every
-    partial node). The full predicate is evaluated by the model on the tree of every generated case of
-    the correspondence run (`wf=1` in the compared line) — tested, not proved. -/
+/-- what `okTree` says, one level at a time: the node's name is a known node kind, no child is nil,
+    and every child is `okTree` again -/
+theorem okTree_unfold (n : Node) (h : okTree n = true) :
+    knownName n.name = true ∧ ∀ c ∈ n.children, ∃ c', c = some c' ∧ okTree c' = true := by
+  rw [okTree_eq] at h
+  simp only [Bool.and_eq_true] at h
+  refine ⟨h.1, ?_⟩
+  have : ∀ cs : List (Option Node), kidsOk cs = true → ∀ c ∈ cs, ∃ c', c = some c' ∧ okTree c' = true := by
+    intro cs
+    induction cs with
+    | nil => intro _ c hc; simp at hc
+    | cons x xs ih =>
+      intro hk c hc
+      cases x with
+      | none => simp [kidsOk] at hk
+      | some x' =>
+        simp only [kidsOk, Bool.and_eq_true] at hk
+        rcases List.mem_cons.mp hc with rfl | hc
+        · exact ⟨x', rfl, hk.1⟩
+        · exact ih hk.2 c hc
+  exact this _ h.2
+
+/-- **parse_wellformed_partial.** Proved part of `parse_wellformed`: in a returned tree, at every depth,
+    no child is nil (the defect repaired by 486e4c7) and every node name is one of the known node kinds
+    (`kindOf name ≠ .unknown`: the names of the grammar table and of the constructed nodes — in
+    particular no nameless block-brace node, the defect repaired by fixes/C07-brace-in-guard.patch).
+    Full statement, NOT proved here: `parseToks ts = (some t, none) → WellFormed t = true`, i.e. also the
+    per-kind child counts/kinds (`shapeOk`) of `Model/ParserWF.lean`. What is missing: carrying the shape
+    clauses through the same induction (`Specs` would need the child signatures of every partial node).
+    The full predicate is evaluated by the model on the tree of every generated case of the
+    correspondence run (`wf=1` in the compared line) — tested, not proved. -/
 theorem parse_wellformed_partial (ts : List Tok) (t : Node) (h : parseToks ts = (some t, none)) :
-    noNil t = true := by
+    okTree t = true := by
   rcases outcome (fuelFor ts) ts with ⟨t', h', hn⟩ | ⟨e, h', _⟩
   · unfold parseToks at h; rw [h'] at h; simp at h; subst h; exact hn
   · unfold parseToks at h; rw [h'] at h; simp at h
+
+/-- **parse_names_known.** Readable consequence: the root of a returned tree has a known node kind, none of
+    its children is nil, and the same holds below every child. -/
+theorem parse_names_known (ts : List Tok) (t : Node) (h : parseToks ts = (some t, none)) :
+    knownName t.name = true ∧ ∀ c ∈ t.children, ∃ c', c = some c' ∧ okTree c' = true :=
+  okTree_unfold t (parse_wellformed_partial ts t h)
 
 /-- the hypothesis of `parse_wellformed_partial` is satisfiable: `a` followed by EOF gives a tree -/
 example : (parseToks [⟨7, 0, [97], true, false, 0, 1, 1⟩, ⟨1, 1, [], false, false, 0, 1, 2⟩]).1.map WellFormed
     = some true := by decide
 
-/-- negative witness for `noNil`/`WellFormed`: the tree the parser returned for `for a { ) ; b }`
+/-- negative witness for `okTree`/`WellFormed`: the tree the parser returned for `for a { ) ; b }`
     before 486e4c7 (a `statements` node with a nil child) is rejected -/
 example : WellFormed (.mk "statements" none 0 .none .none [none] []) = false ∧
-    noNil (.mk "statements" none 0 .none .none [none] []) = false := by decide
+    okTree (.mk "statements" none 0 .none .none [none] []) = false := by decide
+
+/-- negative witness for the name clause: the nameless node wrapping a `statements` node which
+    `if ({ { a }) { }` produced before fixes/C07-brace-in-guard.patch is rejected by both predicates -/
+example : WellFormed (.mk "" (some ⟨26, 4, [123], false, false, 0, 1, 5⟩) 0 .none .none
+      [some (.mk "statements" none 0 .none .none [] [])] []) = false ∧
+    okTree (.mk "" (some ⟨26, 4, [123], false, false, 0, 1, 5⟩) 0 .none .none
+      [some (.mk "statements" none 0 .none .none [] [])] []) = false := by decide
 
 /-! ## The token channel: the lexer goroutine is gone at every return -/
 
